@@ -151,6 +151,20 @@ class extract_visitor(NodeVisitor):
         self.flow = self.make_flow('join', [orelse])
         self.flow.scope.flow = self.flow
 
+    def alias_loc(self, alias, name, start):
+        # type: (ast.alias, str, tuple[int, int]) -> tuple[int, int]
+        """Position of the identifier an import alias binds
+
+        Searching the statement text from its start finds the first occurrence,
+        which is the wrong one for `import a.b, a.c` or `from m import (x as n, y as n)`:
+        use the alias' own position where the parser provides it (python 3.10+).
+        """
+        if getattr(alias, 'end_col_offset', None) is not None and name != '*':
+            if alias.asname:
+                return alias.end_lineno, alias.end_col_offset - len(alias.asname.encode('utf-8'))  # type: ignore[return-value]
+            return np(alias)
+        return self.top.find_id_loc(name, start)
+
     def visit_Import(self, node):
         # type: (ast.Import) -> None
         loc = get_expr_end(node)
@@ -166,7 +180,7 @@ class extract_visitor(NodeVisitor):
                 iname = name
                 self.top._imports.append(a.name)
 
-            declared_at = self.top.find_id_loc(name, start)
+            declared_at = self.alias_loc(a, name, start)
             self.flow.add_name(ImportedName(name, loc, declared_at, iname, None,
                                             qualified=qualified))
 
@@ -176,7 +190,7 @@ class extract_visitor(NodeVisitor):
         start = np(node)
         for a in node.names:
             name = a.asname or a.name
-            declared_at = self.top.find_id_loc(name, start)
+            declared_at = self.alias_loc(a, name, start)
             module = '.' * node.level + (node.module or '')
             if name == '*':
                 self.top._star_imports.append((loc, declared_at, module, self.flow))
